@@ -185,8 +185,22 @@ func (in *Interp) harnessAPI(fn *ssa.Function, a []Value) (Value, bool) {
 		return I64(int64(n)), true
 	case "vPar":
 		// the engine has no interleavings: run the two calls one after the other
+		in.parBoundary = in.allocSeq
+		in.parWrites = [2]map[interface{}]string{{}, {}}
+		in.parBranch = 1
 		in.callFn(a[0].(*FuncV), nil)
+		in.parBranch = 2
 		in.callFn(a[1].(*FuncV), nil)
+		in.parBranch = 0
+		// an object that existed before the two calls and is written,
+		// without synchronisation, by both of them
+		for o, desc := range in.parWrites[0] {
+			if _, both := in.parWrites[1][o]; both {
+				in.ex.Fail("C09.object-written-by-both-calls", "an object of type "+desc+" that exists before the two concurrent calls is written by both of them without synchronisation")
+				break
+			}
+		}
+		in.parWrites = [2]map[interface{}]string{}
 		return nil, true
 	case "vNativeRepeat":
 		return I64(1), true
